@@ -351,7 +351,7 @@ def _validate_MaxObjectCount_OpenPull(MaxObjectCount):
     """
     if MaxObjectCount is None:
         return
-    if not isinstance(MaxObjectCount, int):
+    if not isinstance(MaxObjectCount, int) or isinstance(MaxObjectCount, bool):
         raise TypeError(
             _format("The 'MaxObjectCount' parameter of the WBEMConnection "
                     "operation has invalid type {0} (must be integer or None)",
@@ -2824,7 +2824,8 @@ class WBEMConnection:  # pylint: disable=too-many-instance-attributes
           TypeError: integer_param has an invalid type
           ValueError: integer param is LT 0
         """
-        if not isinstance(integer_param, (int, type(None))):
+        if not isinstance(integer_param, (int, type(None))) or \
+                isinstance(integer_param, bool):
             raise TypeError(
                 _format("The {0!A} parameter of the WBEMConnection operation "
                         "has invalid type {1} (must be None, or an integer)",
